@@ -38,6 +38,7 @@ def cases(tier, rng):
         ps.append({"x": "tw", "n": -1, "ncls": "int", "wells": shapes[0][0], "present": "list", "len": ln})
         ps.append({"x": "tw", "n": -rng.randint(2, 50), "ncls": "int", "wells": shapes[0][0], "present": "list", "len": ln})
         ps.append({"x": "tw", "n": rng.randint(0, 30), "ncls": "float", "wells": shapes[0][0], "present": "list", "len": ln})
+        ps.append({"x": "tw", "n": rng.randint(0, 30), "ncls": "intfloat", "wells": shapes[0][0], "present": "list", "len": ln})
     # empty well collections
     for n in (0, 1, 5):
         ps.append({"x": "tw", "n": n, "ncls": "int", "wells": {"k": "l", "x": []}, "present": "list", "len": 0})
